@@ -117,6 +117,15 @@ def check(tr):
             inflight = 1  # the injected exception hit between start_trial and the status update of that trial
         if st["started"] not in (nstarted, nstarted - inflight):
             out.append(V("C12", "R4.counter_mismatch", tr, "num_trials_started=%d, %d trials were started" % (st["started"], nstarted), end_seq))
+        # every trial the back-end showed as Failed in a poll counts as failed (whatever the scheduler decided in that poll)
+        last_status = {}
+        for f in (tr.fetches[:-1] if tr.exception is not None else tr.fetches):
+            last_status.update({int(t_): s_ for t_, s_ in f["status"].items()})
+        resumed_later = {b["trial"] for b in tr.backend if b["m"] == "resume_trial"}
+        seen_failed = {t_ for t_, s_ in last_status.items() if s_ == "Failed" and t_ not in resumed_later}
+        if st["failed"] < len(seen_failed):
+            out.append(V("C12", "R4.failures_not_counted", tr, "trials %s were observed as Failed, num_trials_failed=%d" % (
+                sorted(seen_failed), st["failed"]), end_seq))
         # ground truth for failed: trials whose observed end was an error
         errs = {c["trial"] for c in tr.sched if c["m"] == "on_trial_error"}
         truly_failed = {tt for tt in errs if any(r["end"] == "exit" and r["code"] not in (0, None) for r in tr.runs_of(tt))}
